@@ -61,11 +61,13 @@ Fixpoint rows_stripped (acells : bool) (pre post : list (list cell)) : bool :=
       cells_eqb (firstn (length r') r) r' && (length r' <=? length r)%nat &&
       forallb (cell_empty a acells) (skipn (length r') r) && rows_stripped acells pre' post'
   end.
-Definition strip_law (arows acells : bool) (pre post : gridT) : bool :=
+Definition strip_rows_law (arows acells : bool) (pre post : gridT) : bool :=
   (length (grows post) <=? length (grows pre))%nat &&
   forallb (lrow_empty arows) (skipn (length (grows post)) (grows pre)) &&
   rows_stripped acells (grows pre) (grows post) &&
-  (ncols post <=? ncols pre) &&
+  (ncols post <=? ncols pre).
+Definition strip_law (arows acells : bool) (pre post : gridT) : bool :=
+  strip_rows_law arows acells pre post &&
   (negb (max_len (grows pre) <=? ncols pre) || (max_len (grows post) <=? ncols post)).
 (* rstrip is moreover maximal: no empty row is left at the end, no empty cell at the end of a row, and the columns
    beyond the longest row are gone *)
